@@ -128,10 +128,14 @@ CHECKS["C13"] = dict(
 )
 CHECKS["C14"] = dict(
     engine="spec/uijson", category="model_checking",
-    technique="TLA+ state machine UiJsonRoundTrip.tla of InputFile (Load, SetValue, Write, Read, Demote, Promote over token-valued "
-              "ui.json files of 1-3 template forms with optional/enabled/isValue/property/group/dependency/parent members) checked by "
-              "TLC for RoundTripData, RoundTripEnabled, ReadRefused, InStep, PromoteDemote; a path cover of the exported as-built "
-              "state graph is replayed through geoh5py.ui_json.InputFile on a real workspace file; data, ui_json members and the JSON "
+    technique="TLA+ state machine UiJsonRoundTrip.tla of InputFile (Load, SetValue, Assign through the data setter, Write, Read, "
+              "Demote, Promote, and the environment action Edit that changes the project between promotions) over token-valued ui.json "
+              "files of 1-3 template forms with optional / enabled / isValue / property / group / groupOptional / dependency / "
+              "dependencyType / parent members (incl. group+dependency on one form), the update_enabled option on and off, and "
+              "property groups on three different objects; TLC checks RoundTripData, RoundTripEnabled, ReadRefused, InStep, "
+              "PromoteDemote on the ideal specification and Explained on the as-built specification with seven named deviations (each "
+              "with a negative-control cfg); a stratified path cover of the exported as-built state graph is replayed through "
+              "geoh5py.ui_json.InputFile on real workspace files; data (entities by class, uid and name), ui_json members and the JSON "
               "text are compared with the TLC state after every action",
     text="Exhaustive over every form kind x 29 raw value kinds x required/enabled/disabled for single-parameter files, all "
          "pairs/triples of a form catalogue with parent, dependency and group relations, <=2 SetValue (incl. texts that look like "
@@ -208,11 +212,13 @@ CHECKS["C19"] = dict(
 
 CHECKS["C10"] = dict(
     engine="spec/readonly", category="model_checking",
-    technique="TLA+ spec ReadOnly.tla (handle mode, file version, fetch_active_workspace context; Open/ReOpen/Close/SaveAs, Read/Write/"
-              "Probe over holder kinds x verbs, helpers) with action properties ReadOnlyFrozen, WritesRefused, ReadsWork, "
-              "HelpersPreserveSource, NoSilentUpgrade, WritableOpensAreExplicit; graph walks replayed with the abstract alphabet bound "
-              "to every public entry point discovered reflectively on a fixture file (classified mutating/non-mutating by its effect "
-              "in r+ on a scratch copy); oracle: SHA-256 of the file bytes, handle mode, raise/no-raise, h5py.File opens recorded",
+    technique="TLA+ state machine ReadOnly.tla (handle mode, file version token, live token with a 'refused-only' stage, fetch "
+              "context, repeat token; Read/Write/Probe over 42 operation classes, Repeat, 5 helpers, open/re-open/close/save_as/fetch "
+              "actions) checked by TLC (9 action properties, 8 negative controls, 3 as-built graphs); the exported state graph is "
+              "replayed through geoh5py with the operation classes bound to all reflectively discovered public entry points "
+              "(classified by their immediate or close-deferred effect in r+); every mutating setter is repeated verbatim, every "
+              "mutating method is followed by assignments on the entities it was about; SHA-256 of the file, handle mode, every "
+              "opened HDF5 handle and raise/no-raise are compared with the generated transitions after every step",
     text="Every discovered entry point (about 2200 quick / 2800 thorough, about 750 of them mutating) is exercised in mode r at least "
          "once and in depth-3/4 sequences drawn from the TLC graph; after every step the observed (outcome, handle mode, file "
          "changed, writable handle opened) must be a transition TLC generated. Helpers (InputFile, path2workspace, "
@@ -244,15 +250,20 @@ CHECKS["C04"] = dict(
 
 CHECKS["C03"] = dict(
     engine="spec/writethrough", category="model_checking",
-    technique="TLA+ spec WriteThrough.tla (TLC: complete state graph of K attribute slots x 3 value tokens, all action orders to "
-              "depth 4, five named deviations as negative controls) + reflective spec-to-code replay: every transition on every "
-              "window of K assignable attributes of every concrete object/group/data/type class, property group and project "
-              "header, on an entity that was created, closed and re-opened; implementation tracked through the as-built graph",
-    text="TLC checks WriteThrough (open => live = stored), ReaderSeesLastAssigned, the frame condition and refusal/re-open action "
-         "properties on the Ideal model and that each deviation violates them. The harness discovers ~990 (class, attribute) pairs "
-         "by reflection, builds 3 valid values per attribute, and replays the exported transition cover and all orders of up to 4 "
-         "actions on stored entities; after every action the live getters, a fresh Workspace on a flushed copy (or the closed file) "
-         "and the raw HDF5 attribute/dataset are matched against the successors TLC printed.",
+    technique="TLA+ spec WriteThrough.tla: one stored entity seen through K (1-3) attribute slots with 3 value tokens each; actions "
+              "Set, SetSame, SetInvalid, Close, Open (fresh workspace and fetch) and Resume (same Workspace instance re-opened, entity "
+              "object kept); TLC checks WriteThrough, ReaderSeesLastAssigned, Frame, SessionKeepsFile and the refusal / re-open "
+              "properties on the complete Ideal graph and on all action orders to depth 4, and that each of the six named deviations "
+              "(forgets to persist, persists before storing, clobbers another attribute, stale live cache, destroys the stored value, "
+              "close reverts to the loaded twin) violates them; reflective spec-to-code replay of the exported transition cover",
+    text="The harness discovers by reflection every assignable attribute of every concrete object / group / data class (plain and "
+         "concatenated drillhole storage), the three type classes, the value objects of data types (ColorMap, ReferenceValueMap), "
+         "PropertyGroup and the project header (about 1,035 pairs), derives 3 valid values per attribute (near-equal neighbours for "
+         "floats, same-length renamed colour maps, strings longer than stored ones, None where documented), and replays the exported "
+         "transition cover, a share of all orders and a close-resume-assign-close behaviour on entities that were created, closed and "
+         "re-opened; after every action the live getters, every other scalar attribute, a fresh Workspace on a flushed copy "
+         "(write-back storage: on the closed file) and the raw HDF5 content are matched against the successors TLC printed in the "
+         "as-built graph.",
     design_ref="DESIGN.md section 7 (C03), 11.3; notes/C03.md",
     note="Small scope: K = 2 (quick) / 3 (thorough) attributes of one entity, 3 values each, one small fixture per class; pairs not "
          "exercised are listed with a reason in the evidence; concatenated storage is C04. spec/writethrough/exercised_pairs.json "
